@@ -426,6 +426,13 @@ free (void *p)
 
 #endif /* XCV_NO_MALLOC_WRAP */
 
+/* environment model "huge pages are reserved" (command hugeok 1): a MAP_HUGETLB request is granted -- backed by
+   ordinary pages here -- and, as on Linux, must later be unmapped with a length that is a multiple of the huge page
+   size, otherwise munmap fails with EINVAL and the mapping stays.  The sandbox itself has no huge pages.  */
+static int hugeok;
+#define HUGE_SZ (2UL << 20)
+static void *huge_base[8];
+static size_t huge_len[8];
 void *
 mmap (void *addr, size_t len, int prot, int flags, int fd, off_t off)
 {
@@ -440,7 +447,25 @@ mmap (void *addr, size_t len, int prot, int flags, int fd, off_t off)
           errno = ENOMEM;
           return MAP_FAILED;
         }
+      int as_huge = hugeok && (flags & 0x40000);
+      if (as_huge)
+        {
+          if (len % HUGE_SZ)
+            {
+              l->failed = 2;
+              errno = EINVAL;
+              return MAP_FAILED;
+            }
+          flags &= ~(0x40000 | (63 << 26));      /* MAP_HUGETLB and the MAP_HUGE_* size bits */
+        }
       void *p = (void *) syscall (9 /* SYS_mmap */, addr, len, prot, flags, fd, off);
+      if (as_huge && p != MAP_FAILED)
+        for (int i = 0; i < 8; i++)
+          if (!huge_base[i])
+            {
+              huge_base[i] = p; huge_len[i] = len;
+              break;
+            }
       if (p != MAP_FAILED)
         live_add (p, len, 1);
       else
@@ -468,6 +493,18 @@ munmap (void *addr, size_t len)
           errno = EINVAL;
           return -1;
         }
+      for (int i = 0; i < 8; i++)
+        if (huge_base[i] && (char *) addr >= (char *) huge_base[i] && (char *) addr < (char *) huge_base[i] + huge_len[i])
+          {
+            if (len % HUGE_SZ || ((uintptr_t) addr - (uintptr_t) huge_base[i]) % HUGE_SZ)
+              {                   /* what the kernel does with a huge-page mapping: refuse, nothing is released */
+                l->failed = 1;
+                errno = EINVAL;
+                return -1;
+              }
+            if (addr == huge_base[i] && len == huge_len[i])
+              huge_base[i] = 0;
+          }
       if (scan_region (addr, len))
         leak_unmap++;
       /* byte-range accounting: releasing only part of a mapping leaves the rest live */
@@ -1193,6 +1230,8 @@ main (int argc, char **argv)
           snprintf (rs_sched, sizeof rs_sched, "%s", rs_on && strcmp (t0, "=") ? t0 : "");
           rs_pos = 0;
         }
+      else if (!strcmp (cmd, "hugeok"))
+        hugeok = atoi (t0);
       else if (!strcmp (cmd, "errno"))
         ein_mode = !strcmp (t0, "keep") ? -1 : atoi (t0);
       else if (!strcmp (cmd, "entropy"))
